@@ -85,7 +85,7 @@ class FakeSocket(object):
     def send(self, data, flags=0):
         """one attempt, like the system call: the peer's window takes at most SEND_CAP bytes; the caller has to look at
         the count returned and go on (sendall does)"""
-        part = bytes(data)[:self.SEND_CAP]
+        part = bytes(data)[:self.SEND_CAP] if self.SEND_CAP else bytes(data)
         self.sendall(part)
         return len(part)
 
